@@ -27,6 +27,7 @@ CONSTANTS Cap,            \* capacity of auditLogChan
           MaxLines,       \* lines each writer may write
           CtxAwareSend,
           PipeCap,        \* lines a FIFO holds
+          Http,           \* TRUE: --metrics/--healthz given: the HTTP server and its shutdown waiter are two more workers
           Flood           \* TRUE: the audit writer always has another line (sustained load)
 
 VARIABLES
@@ -39,10 +40,12 @@ VARIABLES
     spipe, apipe,         \* lines sitting in the FIFOs ("good" | "bad" | "accept" | "fail")
     chan,       \* number of lines in auditLogChan
     outok,      \* the output file accepts writes
-    exit        \* "running" | "exit0" | "exit1"
+    exit,       \* "running" | "exit0" | "exit1"
+    hpc, wpc,   \* HTTP server worker (ListenAndServe) and its shutdown waiter: "off" | "run" | "returned"
+    port        \* "free" | "busy": whether :2112 can be bound
 
 pvars == <<ctx, sig, spc, apc, ppc, gpc, sret, aret, pret, swr, awr, sleft, aleft, spipe, apipe, chan, outok,
-           exit>>
+           exit, hpc, wpc, port>>
 
 PInit ==
     /\ ctx = "live" /\ sig = FALSE
@@ -50,25 +53,27 @@ PInit ==
     /\ sret = "none" /\ aret = "none" /\ pret = "none"
     /\ swr = "absent" /\ awr = "absent" /\ sleft = MaxLines /\ aleft = MaxLines
     /\ spipe = <<>> /\ apipe = <<>> /\ chan = 0 /\ outok = TRUE /\ exit = "running"
+    /\ hpc = (IF Http THEN "run" ELSE "off") /\ wpc = (IF Http THEN "run" ELSE "off")
+    /\ port \in {"free", "busy"}
 
 Cancelled == ctx = "cancelled"
 CancelIf(b) == ctx' = IF b THEN "cancelled" ELSE ctx
 
 (* ------------------------------ environment ---------------------------- *)
-OpenS == swr = "absent" /\ swr' = "open" /\ UNCHANGED <<ctx, sig, spc, apc, ppc, gpc, sret, aret, pret, awr, sleft, aleft, spipe, apipe, chan, outok, exit>>
-OpenA == awr = "absent" /\ awr' = "open" /\ UNCHANGED <<ctx, sig, spc, apc, ppc, gpc, sret, aret, pret, swr, sleft, aleft, spipe, apipe, chan, outok, exit>>
+OpenS == swr = "absent" /\ swr' = "open" /\ UNCHANGED <<ctx, sig, spc, apc, ppc, gpc, sret, aret, pret, awr, sleft, aleft, spipe, apipe, chan, outok, exit, hpc, wpc, port>>
+OpenA == awr = "absent" /\ awr' = "open" /\ UNCHANGED <<ctx, sig, spc, apc, ppc, gpc, sret, aret, pret, swr, sleft, aleft, spipe, apipe, chan, outok, exit, hpc, wpc, port>>
 WriteS(k) ==
     /\ swr = "open" /\ sleft > 0 /\ Len(spipe) < PipeCap
     /\ spipe' = Append(spipe, k) /\ sleft' = sleft - 1
-    /\ UNCHANGED <<ctx, sig, spc, apc, ppc, gpc, sret, aret, pret, swr, awr, aleft, apipe, chan, outok, exit>>
+    /\ UNCHANGED <<ctx, sig, spc, apc, ppc, gpc, sret, aret, pret, swr, awr, aleft, apipe, chan, outok, exit, hpc, wpc, port>>
 WriteA(k) ==
     /\ awr = "open" /\ (Flood \/ aleft > 0) /\ Len(apipe) < PipeCap
     /\ apipe' = Append(apipe, k) /\ aleft' = IF Flood THEN aleft ELSE aleft - 1
-    /\ UNCHANGED <<ctx, sig, spc, apc, ppc, gpc, sret, aret, pret, swr, awr, sleft, spipe, chan, outok, exit>>
-CloseS == swr = "open" /\ swr' = "closed" /\ UNCHANGED <<ctx, sig, spc, apc, ppc, gpc, sret, aret, pret, awr, sleft, aleft, spipe, apipe, chan, outok, exit>>
-CloseA == awr = "open" /\ ~Flood /\ awr' = "closed" /\ UNCHANGED <<ctx, sig, spc, apc, ppc, gpc, sret, aret, pret, swr, sleft, aleft, spipe, apipe, chan, outok, exit>>
-Signal == ~sig /\ sig' = TRUE /\ ctx' = "cancelled" /\ UNCHANGED <<spc, apc, ppc, gpc, sret, aret, pret, swr, awr, sleft, aleft, spipe, apipe, chan, outok, exit>>
-OutputBreaks == outok /\ outok' = FALSE /\ UNCHANGED <<ctx, sig, spc, apc, ppc, gpc, sret, aret, pret, swr, awr, sleft, aleft, spipe, apipe, chan, exit>>
+    /\ UNCHANGED <<ctx, sig, spc, apc, ppc, gpc, sret, aret, pret, swr, awr, sleft, spipe, chan, outok, exit, hpc, wpc, port>>
+CloseS == swr = "open" /\ swr' = "closed" /\ UNCHANGED <<ctx, sig, spc, apc, ppc, gpc, sret, aret, pret, awr, sleft, aleft, spipe, apipe, chan, outok, exit, hpc, wpc, port>>
+CloseA == awr = "open" /\ ~Flood /\ awr' = "closed" /\ UNCHANGED <<ctx, sig, spc, apc, ppc, gpc, sret, aret, pret, swr, sleft, aleft, spipe, apipe, chan, outok, exit, hpc, wpc, port>>
+Signal == ~sig /\ sig' = TRUE /\ ctx' = "cancelled" /\ UNCHANGED <<spc, apc, ppc, gpc, sret, aret, pret, swr, awr, sleft, aleft, spipe, apipe, chan, outok, exit, hpc, wpc, port>>
+OutputBreaks == outok /\ outok' = FALSE /\ UNCHANGED <<ctx, sig, spc, apc, ppc, gpc, sret, aret, pret, swr, awr, sleft, aleft, spipe, apipe, chan, exit, hpc, wpc, port>>
 
 Env == OpenS \/ OpenA \/ (\E k \in {"accept", "fail"} : WriteS(k)) \/ (\E k \in {"good", "bad"} : WriteA(k))
        \/ CloseS \/ CloseA \/ Signal \/ OutputBreaks
@@ -79,7 +84,7 @@ SOpen ==
     /\ spc = "opening"
     /\ \/ Cancelled /\ spc' = "returned" /\ sret' = "ctx"
        \/ swr # "absent" /\ spc' = "reading" /\ sret' = sret
-    /\ UNCHANGED <<ctx, sig, apc, ppc, gpc, aret, pret, swr, awr, sleft, aleft, spipe, apipe, chan, outok, exit>>
+    /\ UNCHANGED <<ctx, sig, apc, ppc, gpc, aret, pret, swr, awr, sleft, aleft, spipe, apipe, chan, outok, exit, hpc, wpc, port>>
 
 \* ReadString: a line, or an error (EOF when the writer closed; once the context is cancelled the closer
 \* goroutine has closed the file and the read fails - the few lines bufio may still hold are ignored here)
@@ -88,7 +93,7 @@ SRead ==
     /\ \/ spipe # <<>> /\ ~Cancelled /\ spc' = "process" /\ UNCHANGED <<spipe, sret, ctx>>
        \/ ((spipe = <<>> /\ swr = "closed") \/ Cancelled) /\ spc' = "returned" /\ sret' = "err" /\ ctx' = "cancelled"
           /\ UNCHANGED spipe
-    /\ UNCHANGED <<sig, apc, ppc, gpc, aret, pret, swr, awr, sleft, aleft, apipe, chan, outok, exit>>
+    /\ UNCHANGED <<sig, apc, ppc, gpc, aret, pret, swr, awr, sleft, aleft, apipe, chan, outok, exit, hpc, wpc, port>>
 
 \* sshd processor: write the event (may fail), then for accepted logins the hand-off
 SProcess ==
@@ -98,27 +103,27 @@ SProcess ==
        /\ IF ~outok THEN spc' = "returned" /\ sret' = "err" /\ ctx' = "cancelled"
           ELSE IF k = "accept" THEN spc' = "sendlogin" /\ UNCHANGED <<sret, ctx>>
           ELSE spc' = "reading" /\ UNCHANGED <<sret, ctx>>
-    /\ UNCHANGED <<sig, apc, ppc, gpc, aret, pret, swr, awr, sleft, aleft, apipe, chan, outok, exit>>
+    /\ UNCHANGED <<sig, apc, ppc, gpc, aret, pret, swr, awr, sleft, aleft, apipe, chan, outok, exit, hpc, wpc, port>>
 
 \* select { ctx.Done | logins <- login }: the hand-off needs P in its select loop
 SSendLogin ==
     /\ spc = "sendlogin"
     /\ (ppc = "select" \/ Cancelled)
     /\ spc' = "reading"
-    /\ UNCHANGED <<ctx, sig, apc, ppc, gpc, sret, aret, pret, swr, awr, sleft, aleft, spipe, apipe, chan, outok, exit>>
+    /\ UNCHANGED <<ctx, sig, apc, ppc, gpc, sret, aret, pret, swr, awr, sleft, aleft, spipe, apipe, chan, outok, exit, hpc, wpc, port>>
 
 (* ------------------------------ audit ingester ------------------------- *)
 AOpen ==
     /\ apc = "opening"
     /\ \/ Cancelled /\ apc' = "returned" /\ aret' = "ctx"
        \/ awr # "absent" /\ apc' = "reading" /\ aret' = aret
-    /\ UNCHANGED <<ctx, sig, spc, ppc, gpc, sret, pret, swr, awr, sleft, aleft, spipe, apipe, chan, outok, exit>>
+    /\ UNCHANGED <<ctx, sig, spc, ppc, gpc, sret, pret, swr, awr, sleft, aleft, spipe, apipe, chan, outok, exit, hpc, wpc, port>>
 
 ARead ==
     /\ apc = "reading"
     /\ \/ apipe # <<>> /\ ~Cancelled /\ apc' = "sending" /\ UNCHANGED <<aret, ctx>>
        \/ ((apipe = <<>> /\ awr = "closed") \/ Cancelled) /\ apc' = "returned" /\ aret' = "err" /\ ctx' = "cancelled"
-    /\ UNCHANGED <<sig, spc, ppc, gpc, sret, pret, swr, awr, sleft, aleft, spipe, apipe, chan, outok, exit>>
+    /\ UNCHANGED <<sig, spc, ppc, gpc, sret, pret, swr, awr, sleft, aleft, spipe, apipe, chan, outok, exit, hpc, wpc, port>>
 
 \* AuditLogIngester.Process: AuditLogChan <- line
 ASend ==
@@ -128,7 +133,7 @@ ASend ==
           /\ UNCHANGED <<aret, ctx>>
        \/ /\ CtxAwareSend /\ Cancelled
           /\ apc' = "returned" /\ aret' = "ctx" /\ UNCHANGED <<chan, apipe, ctx>>
-    /\ UNCHANGED <<sig, spc, ppc, gpc, sret, pret, swr, awr, sleft, aleft, spipe, outok, exit>>
+    /\ UNCHANGED <<sig, spc, ppc, gpc, sret, pret, swr, awr, sleft, aleft, spipe, outok, exit, hpc, wpc, port>>
 
 (* ------------------------------ audit processor ------------------------ *)
 \* parse goroutine: take a line; a malformed line ends it with an error, a good
@@ -137,7 +142,7 @@ GRecv ==
     /\ gpc = "recv"
     /\ \/ Cancelled /\ gpc' = "ctx" /\ UNCHANGED chan
        \/ chan > 0 /\ chan' = chan - 1 /\ gpc' \in {"recv", "parseerr"} \cup (IF outok THEN {} ELSE {"writeerr"})
-    /\ UNCHANGED <<ctx, sig, spc, apc, ppc, sret, aret, pret, swr, awr, sleft, aleft, spipe, apipe, outok, exit>>
+    /\ UNCHANGED <<ctx, sig, spc, apc, ppc, sret, aret, pret, swr, awr, sleft, aleft, spipe, apipe, outok, exit, hpc, wpc, port>>
 
 \* Auditd.Read select loop
 PSelect ==
@@ -145,29 +150,45 @@ PSelect ==
     /\ \/ Cancelled /\ pret' = "ctx" /\ UNCHANGED ctx
        \/ gpc \in {"parseerr", "writeerr", "ctx"} /\ pret' = "err" /\ ctx' = "cancelled"
     /\ ppc' = "returned"
-    /\ UNCHANGED <<sig, spc, apc, gpc, sret, aret, swr, awr, sleft, aleft, spipe, apipe, chan, outok, exit>>
+    /\ UNCHANGED <<sig, spc, apc, gpc, sret, aret, swr, awr, sleft, aleft, spipe, apipe, chan, outok, exit, hpc, wpc, port>>
+
+(* ------------------------------ HTTP server (cmd/cmd.go) ---------------- *)
+\* server.ListenAndServe: fails at once when the port is taken (first error: cancels the group), otherwise
+\* serves until Shutdown and then returns http.ErrServerClosed
+HServe ==
+    /\ hpc = "run"
+    /\ \/ port = "busy" /\ ctx' = "cancelled"
+       \/ port = "free" /\ wpc = "returned" /\ UNCHANGED ctx
+    /\ hpc' = "returned"
+    /\ UNCHANGED <<sig, spc, apc, ppc, gpc, sret, aret, pret, swr, awr, sleft, aleft, spipe, apipe, chan, outok, exit, wpc, port>>
+
+\* the waiter: <-ctx.Done(); server.Shutdown(ctx)
+HWait ==
+    /\ wpc = "run" /\ Cancelled
+    /\ wpc' = "returned"
+    /\ UNCHANGED <<ctx, sig, spc, apc, ppc, gpc, sret, aret, pret, swr, awr, sleft, aleft, spipe, apipe, chan, outok, exit, hpc, port>>
 
 (* ------------------------------ errgroup / main ------------------------ *)
-AllReturned == spc = "returned" /\ apc = "returned" /\ ppc = "returned"
+AllReturned == spc = "returned" /\ apc = "returned" /\ ppc = "returned" /\ hpc # "run" /\ wpc # "run"
 Failure == sret = "err" \/ aret = "err" \/ pret = "err"
 
 Exit ==
     /\ exit = "running" /\ AllReturned
     /\ exit' = "exit1"          \* eg.Wait returns the first non-nil error (ctx.Err() counts): log.Fatalln
-    /\ UNCHANGED <<ctx, sig, spc, apc, ppc, gpc, sret, aret, pret, swr, awr, sleft, aleft, spipe, apipe, chan, outok>>
+    /\ UNCHANGED <<ctx, sig, spc, apc, ppc, gpc, sret, aret, pret, swr, awr, sleft, aleft, spipe, apipe, chan, outok, hpc, wpc, port>>
 
-Worker == SOpen \/ SRead \/ SProcess \/ SSendLogin \/ AOpen \/ ARead \/ ASend \/ GRecv \/ PSelect \/ Exit
+Worker == SOpen \/ SRead \/ SProcess \/ SSendLogin \/ AOpen \/ ARead \/ ASend \/ GRecv \/ PSelect \/ HServe \/ HWait \/ Exit
 PNext == Env \/ Worker \/ (exit # "running" /\ UNCHANGED pvars)
 
 PSpec == PInit /\ [][PNext]_pvars
          /\ WF_pvars(SOpen) /\ WF_pvars(SRead) /\ WF_pvars(SProcess) /\ WF_pvars(SSendLogin)
          /\ WF_pvars(AOpen) /\ WF_pvars(ARead) /\ WF_pvars(ASend) /\ WF_pvars(GRecv) /\ WF_pvars(PSelect)
-         /\ WF_pvars(Exit)
+         /\ WF_pvars(HServe) /\ WF_pvars(HWait) /\ WF_pvars(Exit)
 
 (***************************************************************************)
 (* C08 / C13                                                               *)
 (***************************************************************************)
-AnyReturned == spc = "returned" \/ apc = "returned" \/ ppc = "returned"
+AnyReturned == spc = "returned" \/ apc = "returned" \/ ppc = "returned" \/ hpc = "returned"
 FailStop     == AnyReturned ~> (exit # "running")
 SignalStops  == sig ~> (exit # "running")
 CancelStopsS == Cancelled ~> (spc = "returned")
